@@ -488,6 +488,73 @@ func (h *hist) lease(content []byte) *buffer {
 	return b
 }
 
+// genValue draws a value of the type.
+func genValue(t *core.Tape, ty int) interface{} {
+	switch ty {
+	case TDate:
+		return genDate(t)
+	case TRoman:
+		return genRoman(t)
+	case TSem:
+		return genSem(t)
+	case TSize:
+		return genSize(t)
+	}
+	return genUU(t)
+}
+
+// plainObject renders a struct value as a JSON object of its exported fields (nil for other
+// kinds and for structs without exported fields). Keys are the Go field names or their
+// lower-case form (encoding/json matches keys case-insensitively); with odd choose values one
+// member gets a value of another JSON type.
+func plainObject(t *core.Tape, v interface{}) []byte {
+	rv := reflect.ValueOf(v)
+	if rv.Kind() != reflect.Struct {
+		return nil
+	}
+	type member struct{ k, v string }
+	var ms []member
+	for i := 0; i < rv.NumField(); i++ {
+		f := rv.Type().Field(i)
+		if f.PkgPath != "" {
+			continue
+		}
+		b, err := json.Marshal(rv.Field(i).Interface())
+		if err != nil {
+			continue
+		}
+		ms = append(ms, member{f.Name, string(b)})
+	}
+	if len(ms) == 0 {
+		return nil
+	}
+	lower := t.Bool(1, 2)
+	if t.Bool(1, 2) {
+		i := t.Choose(len(ms))
+		alts := [...]string{`"x"`, "null", "1.5", "-1", "[]", "{}", "true", "340282366920938463463374607431768211456", `"7"`, "7"}
+		ms[i].v = alts[t.Choose(len(alts))]
+	}
+	if t.Bool(1, 4) && len(ms) > 1 {
+		i, j := t.Choose(len(ms)), t.Choose(len(ms))
+		ms[i], ms[j] = ms[j], ms[i]
+	}
+	out := []byte{'{'}
+	for i, m := range ms {
+		if i > 0 {
+			out = append(out, ',')
+		}
+		k := m.k
+		if lower {
+			k = strings.ToLower(k)
+		}
+		out = append(out, '"')
+		out = append(out, k...)
+		out = append(out, '"', ':')
+		out = append(out, m.v...)
+	}
+	return append(out, '}')
+}
+
 // sqlScanner is database/sql.Scanner.
 type sqlScanner interface{ Scan(src interface{}) error }
 
@@ -557,7 +624,16 @@ func (h *hist) opCall() {
 			scanKind = 4 + t.Choose(2) // text, as string or as []byte: what a driver hands over for these types
 		}
 	}
-	if entry == EJSONStd {
+	plainObj := false
+	if entry == EJSONStd && !h.clean && t.Bool(1, 4) {
+		// what a peer sends that knows the type's fields and nothing of its text form: the value
+		// as a plain JSON object, with one member of the wrong JSON type half of the time
+		if doc := plainObject(t, genValue(t, ty)); doc != nil {
+			input, plainObj = doc, true
+			h.res.Faults.Inc("json_plain_object_document")
+		}
+	}
+	if entry == EJSONStd && !plainObj {
 		// encoding/json hands a TextUnmarshaler the unquoted string
 		if ty != TSize || rec.Kind != RJSON {
 			q, _ := json.Marshal(string(input))
